@@ -517,7 +517,10 @@ class Evaluator:
         else:
             val = ('matchval', strip(sv), [(d, strip(v)) for d, v in vals])
         if all(t == ['eps'] for d, t in arms):
-            return (val, ts)
+            ssv = strip(sv)
+            if not (isinstance(ssv, tuple) and ssv and ssv[0] == 'byte'):
+                return (val, ts)
+            # a dispatch on a byte just read stays visible even if no arm has an effect
         # Result-unwrapping match (tuples / derive): Ok(x) => x, Err(e) => return Err(e..)
         descs = sorted(d[1] for d, _ in arms)
         if descs == ['Err', 'Ok']:
